@@ -252,3 +252,21 @@ def deferred_save(ctx):
         ctx.check(ok, f'{sp.qualname}:save deferred while writes pending', c,
                   'no save happens while writeDict is non-empty',
                   'the save is not guarded by the pending-writes test: factory defaults read meanwhile may be saved', sp)
+
+
+@rule('C17.R4b', min_instances=1)
+def given_flag_is_set_for_every_configured_value(ctx):
+    """Module._handle_writes marks a parameter as `given` whenever a value was given explicitly (configuration or Parameter
+    argument) - that flag is what makes the configuration win over the stored value in PersistentMixin.__init__"""
+    m = ctx.m
+    hw = m.method('frappy.modulebase.Module', '_handle_writes', inherited=False)
+    ctx.analysed(hw)
+    stores = [(t, v, s) for t, v, s in attr_stores(hw.node) if t.attr == 'given' and isinstance(v, ast.Constant) and v.value is True]
+    if not stores:
+        raise AnchorMissing('pobj.given = True not found in Module._handle_writes', violation=f'{hw.qualname}:given flag set for explicit values')
+    for t, v, s in stores:
+        ifs = [a for a in ancestors(s) if isinstance(a, ast.If)]
+        ok = len(ifs) == 1 and src(ifs[0].test).endswith('.value is None') and any(s is x for st in ifs[0].orelse for x in ast.walk(st))
+        ctx.check(ok, f'{hw.qualname}:given flag set for explicit values', s, 'set unconditionally in the explicit-value branch',
+                  f'`{src(s)}` is nested under {[src(a.test) for a in ifs]}: a persistent parameter without write method that is given in the '
+                  'configuration is not marked as given - the stored value silently overrides the configured one at start-up', hw)
